@@ -14,7 +14,7 @@ class C23(Prop):
   thorough_examples = 15000
   rule = ("Hypothesis-generated chart x start state x event list on every host (plain, instrumented, "
           "queued with instrumentation on/off, a named and an anonymous started ActiveObject under the "
-          "deterministic scheduler; decorated or not; in a quarter of the charts several state "
+          "deterministic scheduler; decorated, not decorated or only partly decorated; in a quarter of the charts several state "
           "functions share one __name__). Oracle after start_at and after every step: state_name equals "
           "the reference model's current state name; state_fn is that state's handler or the "
           "function it decorates; on an instrumented queued chart current_state() returns the same "
@@ -35,8 +35,12 @@ class C23(Prop):
       if mod and n >= 2:
         # different state functions may carry the same __name__ (one builder called twice)
         case["spec"] = dict(case["spec"], names=["vs%d" % (i % mod) for i in range(n)])
+      if t[3] and case["spec"]["spy"]:
+        # a chart on which only some state functions wear the decorator
+        case["spec"] = dict(case["spec"], spy=t[3])
       return case
-    return st.tuples(base, hosts, st.sampled_from([0, 0, 0, 1, 2, 3])).map(finish)
+    return st.tuples(base, hosts, st.sampled_from([0, 0, 0, 1, 2, 3]),
+                     st.sampled_from([None, None, None, "mixed_even", "mixed_odd"])).map(finish)
 
   def probe(self, chart, rt, model, where, case):
     i = model.cur
